@@ -269,7 +269,15 @@ struct PG<'r> {
     stub_rate: u64,
     ill_typed_rate: u64,
     nodes: usize,
+    /// swarm style: built-ins this workload hammers (with varied arguments), empty = none in particular
+    focus: Vec<&'static str>,
 }
+
+/// Built-ins a workload may focus on (see `PG::focus_expr`).
+pub const FOCUSABLE: &[&str] = &[
+    "getFullYear", "getMonth", "getDate", "getDayOfMonth", "getDayOfWeek", "getDayOfYear", "getHours", "getMinutes", "getSeconds", "getMilliseconds",
+    "int", "uint", "double", "string", "bytes", "max", "min", "contains_bytes", "contains_map", "dur_cmp", "ts_cmp", "matches", "startsWith", "endsWith", "timestamp", "duration",
+];
 
 fn lit_int(r: &mut Rng) -> G {
     G::Lit(format!("{}", r.range(0, 5)))
@@ -404,7 +412,77 @@ impl<'r> PG<'r> {
 
     /// The less common built-ins (conversions, timestamp/duration functions, bytes, multi-argument
     /// max/min, contains on maps and bytes): a change under test may hang state off any of them.
+    /// One call of the focused built-in `f` with arguments varied over a small pool, and its type.
+    fn focus_expr(&mut self, f: &str, depth: u32) -> (G, Ty) {
+        let d = depth.saturating_sub(1);
+        let call = |name: &str, recv: Option<G>, args: Vec<G>| G::Call(name.into(), recv.map(Box::new), args);
+        match f {
+            "int" => (call("int", None, vec![G::Lit((*self.r.pick(&["'12'", "'-3'", "'13'", "2.5", "2.4", "7u", "8u", "'x'", "12"])).into())]), Ty::Int),
+            "uint" => (G::Bin("==".into(), Box::new(call("uint", None, vec![G::Lit((*self.r.pick(&["'12'", "'13'", "2.5", "7", "8", "'x'", "-1"])).into())])), Box::new(G::Lit("7u".into()))), Ty::Bool),
+            "double" => (G::Bin(">".into(), Box::new(call("double", None, vec![G::Lit((*self.r.pick(&["'1.5'", "'2.5'", "3", "4", "7u", "'x'", "'NaN'"])).into())])), Box::new(G::Lit("2.0".into()))), Ty::Bool),
+            "string" => {
+                let t = *self.r.pick(&[Ty::Ts, Ty::Dur, Ty::Double, Ty::Bytes, Ty::UInt, Ty::Int, Ty::Int]);
+                let a = self.calling(|s| s.gen(t, d.min(1)));
+                (call("string", None, vec![a]), Ty::Str)
+            }
+            "bytes" => (call("size", None, vec![call("bytes", None, vec![self.calling(|s| s.gen(Ty::Str, d.min(1)))])]), Ty::Int),
+            "max" | "min" => {
+                let n = self.r.range(2, 4);
+                let args: Vec<G> = (0..n).map(|_| self.gen(Ty::Int, 0)).collect();
+                if self.r.chance(1, 3) {
+                    (call(f, None, vec![self.calling(|s| s.gen(Ty::ListInt, d.min(1)))]), Ty::Int)
+                } else {
+                    (call(f, None, args), Ty::Int)
+                }
+            }
+            "contains_bytes" => {
+                let lit = G::Lit((*self.r.pick(&["b'abc'", "b'abd'", "b''"])).into());
+                let recv = self.var_or(Ty::Bytes, lit);
+                let arg = G::Lit((*self.r.pick(&["b'b'", "b'c'", "b'bc'", "b''"])).into());
+                (call("contains", Some(recv), vec![arg]), Ty::Bool)
+            }
+            "contains_map" => {
+                let m = self.gen(Ty::MapStrInt, d.min(1));
+                (call("contains", Some(m), vec![G::Lit(format!("'{}'", self.r.pick(MAP_KEYS)))]), Ty::Bool)
+            }
+            "dur_cmp" => (G::Bin((*self.r.pick(&["<", ">=", "=="])).into(), Box::new(self.gen(Ty::Dur, d.min(1))), Box::new(self.gen(Ty::Dur, d.min(1)))), Ty::Bool),
+            "ts_cmp" => (G::Bin((*self.r.pick(&["<", ">=", "!="])).into(), Box::new(self.gen(Ty::Ts, d.min(1))), Box::new(self.gen(Ty::Ts, d.min(1)))), Ty::Bool),
+            "matches" => {
+                let recv = self.gen(Ty::Str, d.min(1));
+                (call("matches", Some(recv), vec![G::Lit((*self.r.pick(&["'^a'", "'^b'", "'b+'", "'a+'", "'^$'", "'[a-c]*z'", "'[a-c]*y'", "'('"])).into())]), Ty::Bool)
+            }
+            "startsWith" | "endsWith" => {
+                let recv = self.gen(Ty::Str, d.min(1));
+                (call(f, Some(recv), vec![G::Lit((*self.r.pick(&["'a'", "'b'", "'ab'", "''", "'zz'"])).into())]), Ty::Bool)
+            }
+            "timestamp" => (G::Bin("<".into(), Box::new(self.gen(Ty::Ts, 0)), Box::new(self.gen(Ty::Ts, 0))), Ty::Bool),
+            "duration" => (G::Bin("<".into(), Box::new(self.gen(Ty::Dur, 0)), Box::new(self.gen(Ty::Dur, 0))), Ty::Bool),
+            accessor => {
+                let t = self.gen(Ty::Ts, d.min(1));
+                (call(accessor, Some(t), vec![]), Ty::Int)
+            }
+        }
+    }
+
+    fn adapt(&mut self, g: G, from: Ty, to: Ty) -> G {
+        match (from, to) {
+            (a, b) if a == b => g,
+            (Ty::Int, Ty::Bool) => G::Bin(">".into(), Box::new(g), Box::new(lit_int(self.r))),
+            (Ty::Int, Ty::Str) => G::Call("string".into(), None, vec![g]),
+            (Ty::Bool, Ty::Int) => G::Cond(Box::new(g), Box::new(G::Lit("1".into())), Box::new(G::Lit("0".into()))),
+            (Ty::Bool, Ty::Str) => G::Cond(Box::new(g), Box::new(G::Lit("'a'".into())), Box::new(G::Lit("'b'".into()))),
+            (Ty::Str, Ty::Int) => G::Call("size".into(), None, vec![g]),
+            (Ty::Str, Ty::Bool) => G::Bin("==".into(), Box::new(g), Box::new(G::Lit("'a'".into()))),
+            _ => g,
+        }
+    }
+
     fn builtin(&mut self, ty: Ty, depth: u32) -> Option<G> {
+        if !self.focus.is_empty() && self.r.chance(3, 4) {
+            let f = *self.r.pick(&self.focus.clone());
+            let (g, gty) = self.focus_expr(f, depth);
+            return Some(self.adapt(g, gty, ty));
+        }
         let d = depth.saturating_sub(1);
         let call = |name: &str, recv: Option<G>, args: Vec<G>| G::Call(name.into(), recv.map(Box::new), args);
         Some(match ty {
@@ -449,7 +527,8 @@ impl<'r> PG<'r> {
 
     fn gen_typed(&mut self, ty: Ty, depth: u32) -> G {
         let leaf = depth == 0 || self.nodes > 70;
-        if !leaf && self.call_depth < 2 && matches!(ty, Ty::Int | Ty::Str | Ty::Bool) && self.r.chance(1, 14) {
+        let rate = if self.focus.is_empty() { 14 } else { 4 };
+        if !leaf && self.call_depth < 2 && matches!(ty, Ty::Int | Ty::Str | Ty::Bool) && self.r.chance(1, rate) {
             if let Some(g) = self.builtin(ty, depth) {
                 return g;
             }
@@ -819,6 +898,11 @@ pub fn gen_program(r: &mut Rng, root_names: &[(String, Ty)], depth: u32, stub_ra
     gen_program_bounded(r, root_names, depth, stub_rate, ill_typed_rate, 8)
 }
 
+thread_local! {
+    /// focus set of the workload being generated (plumbing shortcut: generation is single-threaded)
+    static FOCUS: std::cell::RefCell<Vec<&'static str>> = const { std::cell::RefCell::new(Vec::new()) };
+}
+
 /// Generates programs until one is within the cost bounds for collections of `var_len` elements,
 /// lowering the depth on every rejection.
 pub fn gen_program_bounded(r: &mut Rng, root_names: &[(String, Ty)], depth: u32, stub_rate: u64, ill_typed_rate: u64, var_len: u64) -> ProgramSpec {
@@ -854,6 +938,7 @@ fn gen_program_once(r: &mut Rng, root_names: &[(String, Ty)], depth: u32, stub_r
         stub_rate,
         ill_typed_rate,
         nodes: 0,
+        focus: FOCUS.with(|f| f.borrow().clone()),
     };
     let top = match pg.r.below(20) {
         0..=6 => Ty::ListInt,
@@ -981,6 +1066,15 @@ pub fn gen_workload(run_seed: u64, engine: Engine, lim: &Limits, faults: bool) -
     // length of collection variables is the generator's own maximum (long lists reach 70) whenever
     // long values are possible at all; programs are generated against that bound.
     let var_len = 70u64;
+    // swarm: half of the workloads hammer one or two built-ins with varied arguments
+    let mut focus: Vec<&'static str> = vec![];
+    if r.chance(1, 2) {
+        focus.push(*r.pick(FOCUSABLE));
+        if r.chance(1, 3) {
+            focus.push(*r.pick(FOCUSABLE));
+        }
+    }
+    FOCUS.with(|f| *f.borrow_mut() = focus);
     let mut programs = vec![];
     for _ in 0..n_programs {
         let depth = r.range(1, lim.max_prog_depth as i64) as u32;
